@@ -13,7 +13,7 @@ while a:
     if a[0] == "--tier": tier = a[1]; a = a[2:]
     elif a[0] == "--checks": checks = a[1].split(","); a = a[2:]
     else: a = a[1:]
-W = f"/tmp/seed/{prop}"; O = f"{W}/out/{var}"
+W = (f"/tmp/seed/{prop}" if var in ("A", "B") else f"/tmp/seed2/{prop}"); O = f"{W}/out/{var}"
 env = dict(os.environ, GOFLAGS="-mod=mod", GOPROXY="off")
 env.pop("GOSUMDB", None); env.pop("GOTOOLCHAIN", None)
 def sh(cmd, cwd=W, timeout=1800):
@@ -21,7 +21,7 @@ def sh(cmd, cwd=W, timeout=1800):
     return r.returncode, (r.stdout + r.stderr)
 meta = json.load(open(f"{O}/meta.json"))
 res = {"property": prop.upper(), "variant": var, "title": meta.get("title"), "what_it_breaks": meta.get("what_it_breaks"), "needs_to_manifest": meta.get("needs_to_manifest")}
-sh("git checkout -q -- . && git clean -fdq -e out -e PROPERTY.txt")
+sh("git checkout -q -- . && git clean -fdq -e out -e PROPERTY.txt -e KNOWN.txt")
 rc, out = sh(f"git apply --check out/{var}/patch.diff")
 if rc: print("patch does not apply:", out); sys.exit(2)
 files = re.findall(r"^\+\+\+ b/(\S+)", open(f"{O}/patch.diff").read(), re.M)
@@ -65,7 +65,7 @@ rc_d0, out_d0 = sh(cmd + " 2>&1 | tail -8")
 demo_passes = ("ok" in out_d0) and "FAIL" not in out_d0
 res["demo_passes_without_change"] = demo_passes
 os.remove(f"{W}/{dest}")
-sh("git checkout -q -- . && git clean -fdq -e out -e PROPERTY.txt")
+sh("git checkout -q -- . && git clean -fdq -e out -e PROPERTY.txt -e KNOWN.txt")
 shutil.copy(f"{O}/patch.diff", f"{sd}/patch.diff"); shutil.copy(f"{O}/{demo_src[0]}", f"{sd}/{demo_src[0]}")
 res["confirmed"] = bool(tests_ok and demo_fails and demo_passes)
 if not res["confirmed"]:
